@@ -1,4 +1,6 @@
 import PebblesVerif.Proofs.Point
+import PebblesVerif.Proofs.Eval
+import PebblesVerif.Proofs.Sanitize
 import PebblesVerif.Model.Exec
 /-!
 # C01 — federated execution equals a single server
@@ -89,5 +91,47 @@ theorem C01_point_roundtrip_obj (field id : List Char)
     `getVariables` fails with "could not find id in path"): concrete witness, by evaluation. -/
 theorem C01_point_hash_breaks :
     extractL ['o', 'w', 'n', 'e', 'r', '#', 'a', '#', 'b'] = .ok ⟨"owner", none, ""⟩ := by rfl
+
+/-! ## The semantic core of federation (reference evaluator) -/
+
+/-- **A service answers what the merged-schema server would answer for the same selection.**
+    Evaluation over the shared data does not consult the schema for selections that do not go
+    through `node` and whose fragment conditions have the same possible types in both schemas
+    (in particular: all conditions concrete) — for every selection set, object and data. -/
+theorem C01_eval_schema_independent (e : Spec.Env) (S : Schema) (ss : List Sel) (o : Spec.Obj)
+    (acc : List (String × J)) (h : Spec.concreteOnly S e.schema ss = true) :
+    Spec.evalSels (e.withSchema S) o ss acc = Spec.evalSels e o ss acc :=
+  Spec.evalSels_schema e S ss o acc h
+
+/-- **Decomposition**: the answer to `a ++ b` on one object is the answer to `a` extended by the
+    answer to `b` — what lets the planner hand `a` and `b` to different owners. -/
+theorem C01_eval_split (e : Spec.Env) (o : Spec.Obj) (a b : List Sel) (acc : List (String × J)) :
+    Spec.evalSels e o (a ++ b) acc = (Spec.evalSels e o a acc).bind (fun acc' => Spec.evalSels e o b acc') :=
+  Spec.evalSels_append e o a b acc
+
+/-- **Lookup by id**: the planner's `node(id: $id) { ... on T { sels } }` wrapper, evaluated at a
+    service that knows `T`, returns under `node` exactly the evaluation of `sels` on that entity. -/
+theorem C01_eval_node_lookup (env : Spec.Env) (e : Spec.Entity) (sels : List Sel) (kvs : List (String × J))
+    (he : env.data.entity? e.id = some e) (hid : J.lookup "id" env.vars = some (.str e.id))
+    (hT : ∃ td, env.schema.type? e.type = some td ∧ td.kind = .object)
+    (hk : Spec.evalSels env (.ent e.type e.id e.fields) sels [] = some kvs) :
+    Spec.evalSels env (.root "Query") (convertToNodeQuery e.type sels) [] = some [("node", .obj kvs)] :=
+  Spec.eval_node_lookup env e sels kvs he hid hT hk
+
+/-! ## Planner front end -/
+
+/-- **The sanitiser expands every fragment spread** (for every operation): the selection set the
+    router sees contains no `FragmentSpread`. -/
+theorem C01_sanitize_expands_spreads (c : PCtx) (ss res : List Sel) (sf : Scrub)
+    (h : sanitizeSels c [] ss = .ok (res, sf)) : noSpread res = true :=
+  sanitize_noSpread c [] ss res sf h
+
+/-- **Helper fields are only ever PREPENDED, and only `id` / `__typename`**: whatever the
+    sanitiser adds to a selection set for the executor's benefit is a prefix of helper fields;
+    the client's selections are kept, in order. -/
+theorem C01_helpers_only_prepended {c : PCtx} {ss : List Sel} {t : String} {res : List Sel} {added : List String}
+    (h : addScrubFields c ss t = .ok (res, added)) :
+    ∃ pre, res = pre ++ ss ∧ ∀ x ∈ pre, x = idField ∨ x = typenameField :=
+  addScrubFields_shape h
 
 end PebblesVerif
